@@ -102,7 +102,9 @@ func resolveConfigsEnvironment(dict map[string]any, environment types.Mapping) {
 			continue
 		}
 		if found, ok := environment[env]; ok {
-			config["content"] = found
+			// as for secrets: `content` next to `environment` would be rejected (mutually exclusive)
+			// when this model is included by another one and validated again
+			config[types.SecretConfigXValue] = found
 		}
 		configs[name] = config
 	}
